@@ -1,6 +1,9 @@
 (* Correspondence suite "state.liveness" (C05, connected route): the history is written to
    the socket of a connected client.  args as for "state.history" (DrvC04.v); route is
    "conn", "conn-norecover" (no SASL configured) or "conn-sasl" (SASL PLAIN acct/secret).
+   "state.stall" (finding handler-injected-error-self-blocks, route "burst-sasl"): the same
+   model; every generated history contains a failing SASL reply, so the prediction is
+   "disconnected".
    Observation: "disconnected" when some event makes Connect return an error (an ERROR
    from the server, or one a handler queued), else the state dump of DrvC04.v. *)
 Require Import Bytes AMap Names State ClientStep DrvC04.
@@ -10,7 +13,7 @@ Definition live_env : Ctcp.env :=
   Ctcp.mk_env [] (bs "Real Name") (bs "go") (bs "os") (bs "arch") (bs "now") (bs "0s") true.
 
 Definition live_cfg (route nick usr : str) : client_cfg :=
-  let sasl := streqb route (bs "conn-sasl") in
+  let sasl := streqb route (bs "conn-sasl") || streqb route (bs "burst-sasl") in
   mkClientCfg (mkConfig nick usr)
     (if sasl then Some (Sasl.mkMech (bs "PLAIN") (Sasl.sasl_plain_encode (bs "acct") (bs "secret"))) else None)
     live_env
@@ -39,5 +42,5 @@ Definition run_liveness (args : list str) : str :=
   end.
 
 Definition run_C05 (suite : str) (args : list str) : option str :=
-  if streqb suite (bs "state.liveness") then Some (run_liveness args)
+  if streqb suite (bs "state.liveness") || streqb suite (bs "state.stall") then Some (run_liveness args)
   else None.
